@@ -52,7 +52,10 @@ def run(tier, seed):
     recs = lib.read_ndjson(up)
     items = []
     for i, rec in enumerate(recs):
-        items.append({"id": i, "ty": rec["ty"], "json": plain(rec["val"])})
+        if rec["ty"] in ("F32B", "F64B", "OptF32", "VecF32", "TupF32F64", "FloatPair"):
+            items.append({"id": i, "ty": rec["ty"], "json": None, "tagged": rec["val"]})
+        else:
+            items.append({"id": i, "ty": rec["ty"], "json": plain(rec["val"])})
     ip = os.path.join(lib.outdir(PID), "values.ndjson")
     op = os.path.join(lib.outdir(PID), "obs.ndjson")
     with open(ip, "w") as f:
@@ -63,7 +66,7 @@ def run(tier, seed):
     for o in lib.read_ndjson(op):
         it = items[o["id"]]
         types[it["ty"]] = types.get(it["ty"], 0) + 1
-        v.case(json.dumps([it["ty"], it["json"]]))
+        v.case(json.dumps([it["ty"], it["json"] if it.get("tagged") is None else it["tagged"]]))
         case = {"type": it["ty"], "value": o.get("value", json.dumps(it["json"])[:200])}
         if "harness_error" in o:
             raise lib.ToolError(f"harness could not build {it['ty']} value {json.dumps(it['json'])[:100]}: {o['harness_error']}")
